@@ -3,6 +3,7 @@ package main
 // gvc check: decide one property, write evidence, report violations / known findings.
 
 import (
+	"regexp"
 	"encoding/json"
 	"flag"
 	"fmt"
@@ -121,6 +122,8 @@ func filterObls(rs []*FuncResult, prop string) {
 	}
 }
 
+var ordinalRe = regexp.MustCompile(`#\d+`)
+
 func stableName(o *Obligation) bool {
 	switch o.Kind {
 	case "ensures", "inv-entry", "inv-preserved", "assert", "vacuity", "lemma":
@@ -168,14 +171,17 @@ func cmdCheck(args []string) int {
 	// baseline guard
 	var baseline map[string][]string
 	readJSON(filepath.Join(*verif, "obligations.baseline.json"), &baseline)
+	// names are compared without their "#n" ordinals (n-th back edge, n-th call site): a harmless
+	// edit that adds a continue or a second call shifts the ordinals but loses no contract clause
 	have := map[string]bool{}
 	var stable []string
 	for _, r := range results {
 		for _, o := range r.Obls {
-			have[o.Name] = true
-			if stableName(o) {
-				stable = append(stable, o.Name)
+			n := ordinalRe.ReplaceAllString(o.Name, "")
+			if stableName(o) && !have[n] {
+				stable = append(stable, n)
 			}
+			have[n] = true
 		}
 	}
 	sort.Strings(stable)
@@ -215,7 +221,7 @@ func cmdCheck(args []string) int {
 		}
 	}
 	for _, n := range baseline[*prop] {
-		if !have[n] {
+		if !have[ordinalRe.ReplaceAllString(n, "")] {
 			fails = append(fails, failure{name: n + "/binding", status: "missing", detail: "obligation recorded in obligations.baseline.json is no longer generated (contract lost its function, loop or anchor)"})
 		}
 	}
